@@ -14,13 +14,16 @@ import (
 // after the panicking one).
 type lifeWorld struct {
 	*world
-	mods     map[string]*modules.Module
-	delays   map[string]time.Duration
-	phaseRun map[string]*atomic.Int32 // "<module>/<phase>" -> entries
-	phaseEnd map[string]*atomic.Int32
-	val      *pvalue
+	mods       map[string]*modules.Module
+	delays     map[string]time.Duration
+	phaseRun   map[string]*atomic.Int32 // "<module>/<phase>" -> entries
+	phaseEnd   map[string]*atomic.Int32
+	val        *pvalue
 	panicsLeft atomic.Int32
-	phase    string // phase of the subject that panics
+	// earlyDone: inside its (still running) stop routine the subject already read as
+	// offline, i.e. portbase had declared the stop complete before the routine ended.
+	earlyDone atomic.Bool
+	phase     string // phase of the subject that panics
 }
 
 func (lw *lifeWorld) routine(mod, phase string) func() error {
@@ -34,6 +37,10 @@ func (lw *lifeWorld) routine(mod, phase string) func() error {
 		lw.log.Rec("begin", mod, phase, map[string]any{"n": n})
 		if d := lw.delays[mod]; d > 0 {
 			time.Sleep(d)
+		}
+		if mod == "subject" && phase == "stop" && lw.status("subject") == "offline" {
+			lw.earlyDone.Store(true)
+			lw.log.Rec("note", mod, phase, map[string]any{"status_inside_running_stop_routine": "offline"})
 		}
 		if mod == "subject" && phase == lw.phase && lw.panicsLeft.Add(-1) >= 0 {
 			lw.log.Rec("panic", mod, phase, map[string]any{"value": lw.val.class})
@@ -68,7 +75,15 @@ func (lw *lifeWorld) raised(startErr error) {
 	n := lw.out.Counts["panics_raised"]
 	lw.mu.Unlock()
 	if n == 0 {
-		lw.harnessProblem("the panicking routine was never entered (Start: %s)", errText(startErr))
+		sts := ""
+		for n := range lw.mods {
+			sts += n + "=" + lw.status(n) + " "
+		}
+		evs := ""
+		for _, e := range lw.log.Events() {
+			evs += fmt.Sprintf("%d:%s/%s/%s ", e.Seq, e.Kind, e.Who, e.Op)
+		}
+		lw.harnessProblem("the panicking routine was never entered (err: %s) statuses: %s events: %s", errText(startErr), sts, evs)
 	}
 }
 
@@ -182,6 +197,7 @@ func runLifeChild(sp caseSpec, dir string) {
 			w.harnessProblem("modules.Start with healthy routines failed: %s", startErr)
 		}
 		lw.shutdownLife(sp, true)
+		lw.quiesce()
 		lw.raised(nil)
 		w.checkReported(sp.Kind, lw.val, "subject", taskOK, nil)
 		s := w.snap()
@@ -203,11 +219,15 @@ func runLifeChild(sp caseSpec, dir string) {
 		err := modules.ManageModules()
 		w.log.Rec("ret", "driver", "ManageModules", map[string]any{"err": errText(err)})
 		w.fact("manage_err", errText(err))
-		lw.raised(err)
-		w.check("lifecycle-no-error", sp.Kind, sp.Value, err != nil,
-			"ManageModules returned nil although the stop routine of the module it stopped panicked", nil)
-		w.checkReported(sp.Kind, lw.val, "subject", taskOK, nil)
 		lw.quiesce()
+		lw.raised(err)
+		if lw.earlyDone.Load() {
+			lw.earlyStop(sp, "ManageModules", err)
+		} else {
+			w.check("lifecycle-no-error", sp.Kind, sp.Value, err != nil,
+				"ManageModules returned nil although the stop routine of the module it stopped panicked", nil)
+		}
+		w.checkReported(sp.Kind, lw.val, "subject", taskOK, nil)
 		s := w.snap()
 		w.keepSnap("after_panic", s)
 		w.check("counter-leak", sp.Kind, sp.Value, !s.CtrlFn,
@@ -253,7 +273,12 @@ func (lw *lifeWorld) shutdownLife(sp caseSpec, wantErr bool) {
 	w.log.Rec("ret", "driver", "Shutdown", map[string]any{"err": errText(err)})
 	w.fact("shutdown_err", errText(err))
 	if wantErr {
-		w.check("lifecycle-no-error", sp.Kind, sp.Value, err != nil, "Shutdown returned nil although the stop routine of a module panicked", nil)
+		lw.quiesce()
+		if lw.earlyDone.Load() {
+			lw.earlyStop(sp, "Shutdown", err)
+		} else {
+			w.check("lifecycle-no-error", sp.Kind, sp.Value, err != nil, "Shutdown returned nil although the stop routine of a module panicked", nil)
+		}
 	}
 	if n := w.stopTimeouts.Load(); n > 0 {
 		s, _ := w.stopTOSnap.Load().(string)
@@ -263,4 +288,13 @@ func (lw *lifeWorld) shutdownLife(sp caseSpec, wantErr bool) {
 			w.undecided("stop", sp.Kind, sp.Value, "the stop timeout expired although the accounting read zero: "+s)
 		}
 	}
+}
+
+// earlyStop: the pass declared the module stopped while its stop routine was still
+// running, so the routine's panic could not be part of the result any more. That is a
+// defect of the stop-completion accounting (found and fixed under C01/C05: a stale
+// reset of the control-function flag), kept apart from "returned nil after the panic".
+func (lw *lifeWorld) earlyStop(sp caseSpec, call string, err error) {
+	lw.check("stop-declared-complete-early", sp.Kind, "any", err != nil,
+		call+" treated the module as stopped (status offline, dependencies released) while its stop routine was still running, and returned nil although that routine then panicked", nil)
 }
